@@ -98,9 +98,17 @@ func srvGroup(d gdump) string {
 	if !strings.Contains(d.text, p2pPkg) || strings.Contains(d.text, "verifharness/p15") {
 		return ""
 	}
-	has := func(s string) bool {
+	has := func(s string) bool { // a frame of exactly this function
 		for _, f := range d.frames {
-			if strings.Contains(f.fn, s) {
+			if strings.HasSuffix(f.fn, s) {
+				return true
+			}
+		}
+		return false
+	}
+	hasClosure := func(s string) bool { // a frame of a closure of this function
+		for _, f := range d.frames {
+			if strings.Contains(f.fn, s+".func") {
 				return true
 			}
 		}
@@ -109,7 +117,8 @@ func srvGroup(d gdump) string {
 	switch {
 	case has("p2p.(*Server).runPeer"):
 		return "runPeer"
-	case has("p2p.(*Server).setupConn"):
+	case has("p2p.(*Server).setupConn") || hasClosure("p2p.(*Server).listenLoop"):
+		// the goroutine of an accepted connection holds a handshake slot until it ends
 		return "setupConn"
 	case has("p2p.(*Server).listenLoop"):
 		return "listenLoop"
@@ -117,11 +126,11 @@ func srvGroup(d gdump) string {
 		return "readLoop"
 	case has("p2p.(*Peer).pingLoop"):
 		return "pingLoop"
-	case has("p2p.(*Peer).startProtocols.func"):
+	case hasClosure("p2p.(*Peer).startProtocols"):
 		return "proto"
-	case has("p2p.(*Peer).handle.func"):
+	case hasClosure("p2p.(*Peer).handle"):
 		return "pong"
-	case has("p2p.(*rlpx).doProtoHandshake.func"):
+	case hasClosure("p2p.(*rlpx).doProtoHandshake"):
 		return "hs-writer"
 	case has("p2p.(*Server).run"):
 		return "run"
@@ -394,6 +403,7 @@ type sclient struct {
 	statusOK    bool  // the sub-protocol handshake went through
 	capsSeen    int   // index up to which the reply caps were checked
 	lastTx      int64 // unix nanos of the last frame written (residents: read timeout excuse)
+	pings       int   // pings written on this connection (every one is answered by at most one pong)
 	t0          time.Time
 }
 
@@ -759,16 +769,47 @@ func hasCode(code uint64, from int) func(rx []srvRx, rawN int) bool {
 
 // ---- handshakes -----------------------------------------------------------------------------------------------------
 
-// encHandshake runs the initiator side over the tap with a deadline on the socket.
+// encHandshake runs the initiator side over the tap. The wait for the server's answer is event
+// driven: while it lasts the goroutines are examined (a server that will never answer is a verdict, a
+// deadline that passes is inconclusive). After an inconclusive wait cc.aborted is set.
 func (cc *caseCtx) encHandshake(cl *sclient) error {
-	_ = cl.fd.SetDeadline(time.Now().Add(liveDeadline))
-	rw, err := p2p.VerifInitiatorEncHandshake(cl.tap, cl.key, cc.env.id)
-	_ = cl.fd.SetDeadline(time.Time{})
-	if err != nil {
-		return err
+	done := make(chan error, 1)
+	go func() {
+		rw, err := p2p.VerifInitiatorEncHandshake(cl.tap, cl.key, cc.env.id)
+		if err == nil {
+			cl.rw = rw
+		}
+		done <- err
+	}()
+	deadline := time.NewTimer(liveDeadline)
+	defer deadline.Stop()
+	look := time.NewTimer(blockFirst)
+	defer look.Stop()
+	unblock := func() {
+		_ = cl.fd.SetDeadline(time.Now().Add(-time.Second))
+		<-done
+		_ = cl.fd.SetDeadline(time.Time{})
 	}
-	cl.rw = rw
-	return nil
+	lastKey := ""
+	for {
+		select {
+		case err := <-done:
+			return err
+		case <-look.C:
+			key, detail := cc.srvDiagnose(nil)
+			if key != "" && key == lastKey {
+				unblock()
+				cc.env.dirty = key
+				cc.c.Failf(key, "while %s waits for the answer to its auth message: %s\nsession:\n  %s", cl.name, detail, cc.story())
+			}
+			lastKey = key
+			look.Reset(blockGap)
+		case <-deadline.C:
+			unblock()
+			cc.inconclusive(cl.name + ": no answer to a valid auth message")
+			return fmt.Errorf("no answer within %v", liveDeadline)
+		}
+	}
 }
 
 func (cc *caseCtx) goodHS(cl *sclient) wProtoHS {
@@ -1293,7 +1334,7 @@ func srvEnvFor(c *pbt.C) *srvEnv {
 	return srvCur
 }
 
-var srvScenarios = []string{"pre-enc", "proto-hs", "base", "frames", "subproto", "busy", "limits", "dup-id", "half-open"}
+var srvScenarios = []string{"subproto", "base", "frames", "proto-hs", "busy", "limits", "dup-id", "half-open", "pre-enc"}
 
 func serverProp(c *pbt.C) {
 	tcase := time.Now()
@@ -1314,7 +1355,7 @@ func serverProp(c *pbt.C) {
 	if !cc.settle(cc.residentsAlive(), "the previous case") {
 		return
 	}
-	sc := srvScenarios[c.Weighted("scenario", 3, 5, 5, 4, 5, 2, 2, 2, 2)]
+	sc := srvScenarios[c.Weighted("scenario", 5, 5, 4, 5, 2, 2, 2, 2, 3)]
 	c.Class("stage-" + sc)
 	cc.note("scenario %s (server %s, %d residents, MaxPeers %d, %d pending slots)", sc, env.addr, cc.residentsAlive(), srvMaxPeers, srvPending)
 	switch sc {
@@ -1406,13 +1447,6 @@ func (cc *caseCtx) scPreEnc() {
 	if cl == nil {
 		return
 	}
-	// a well-formed auth message, produced by the initiator code writing into the held tap
-	validAuth := func(remote discover.NodeID) []byte {
-		cl.tap.setHold(true)
-		go func() { _, _ = p2p.VerifInitiatorEncHandshake(&tapConn{fd: nopConn{}, hold: true, wsig: cl.tap.wsig, buf: bytes.Buffer{}}, key, remote) }()
-		return nil
-	}
-	_ = validAuth
 	auth := makeAuth(key, cc.env.id)
 	if len(auth) != hsEncAuthLen {
 		c.Failf("C15/harness", "auth message has %d bytes", len(auth))
@@ -1529,7 +1563,7 @@ func (cc *caseCtx) scPreEnc() {
 			}
 			c.Failf("C15/server/valid-handshake-refused", "status exchange of the trickling client failed: %s", why)
 		}
-		cc.note("hostile writes a valid auth message in pieces of %d bytes and goes on honestly: served", c.Int("pre.chunk2", 0, 0))
+		cc.note("hostile writes a valid auth message in small pieces and goes on honestly: served")
 	case "auth-then-close":
 		if err := cc.encHandshake(cl); err != nil {
 			c.Failf("C15/server/valid-handshake-refused", "a valid auth message was refused: %v", err)
@@ -1561,8 +1595,6 @@ func (cc *caseCtx) scPreEnc() {
 		}
 	}
 }
-
-type nopConn struct{ net.Conn }
 
 // authPlain / makeAuth: the initiator's message built from its layout (as in handshake_test.go):
 // sig || sha3(eph-pub) || pub || nonce || flag, ECIES-encrypted to the recipient.
@@ -1621,17 +1653,37 @@ func (cc *caseCtx) hostileAfterEnc(name string, key *ecdsa.PrivateKey) *sclient 
 	return cl
 }
 
+var protoHSKinds = []string{"wrong-id", "zero-id", "version", "oversized-name", "non-handshake-first", "disc-valid", "disc-hostile", "garbage-rlp",
+	"truncated-rlp", "valid", "valid-extra-caps", "oversized-1MiB", "caps-0", "caps-1000", "caps-many-small", "caps-huge-name", "caps-dup-eth",
+	"caps-mismatch", "second-handshake", "extra-field", "listenport-huge", "frame-incomplete"}
+
+// scProtoHS: several connections one after the other, each with its own variant of the protocol handshake.
 func (cc *caseCtx) scProtoHS() {
 	c := cc.c
-	kinds := []string{"valid", "valid-extra-caps", "oversized-name", "oversized-1MiB", "wrong-id", "zero-id", "version", "caps-0", "caps-1000",
-		"caps-many-small", "caps-huge-name", "caps-dup-eth", "caps-mismatch", "second-handshake", "non-handshake-first", "disc-valid", "disc-hostile",
-		"garbage-rlp", "truncated-rlp", "extra-field", "listenport-huge", "frame-incomplete"}
-	kind := kinds[c.Pick("hs.kind", len(kinds))]
-	c.Class("proto-hs/" + kind)
-	cl := cc.hostileAfterEnc("hostile", cc.newKey())
-	if cl == nil {
-		return
+	n := c.Int("hs.attempts", 1, 5)
+	for i := 0; i < n && !cc.aborted; i++ {
+		l := fmt.Sprintf("hs%d", i)
+		kind := protoHSKinds[c.Pick(l+".kind", len(protoHSKinds))]
+		c.Class("proto-hs/" + kind)
+		cl := cc.hostileAfterEnc(fmt.Sprintf("hostile-%d", i), cc.newKey())
+		if cl == nil {
+			return
+		}
+		cc.protoHSOne(cl, l, kind)
+		if cc.aborted {
+			return
+		}
+		if i < n-1 { // the last one stays open for the common part of the case
+			cl.close(c.Bool(l + ".rst"))
+			if !cc.settle(cc.residentsAlive(), "a handshake attempt was closed") {
+				return
+			}
+		}
 	}
+}
+
+func (cc *caseCtx) protoHSOne(cl *sclient, l, kind string) {
+	c := cc.c
 	g := cc.goodHS(cl)
 	code := uint64(0)
 	payload := mustEnc(g)
@@ -1642,20 +1694,20 @@ func (cc *caseCtx) scProtoHS() {
 		expect = "accept"
 	case "valid-extra-caps":
 		g.Caps = []p2p.Cap{{Name: "aaa", Version: 1}, {Name: "eth", Version: 60}, {Name: "eth", Version: protoVersion}, {Name: "eth", Version: 62}, {Name: "zzz", Version: 9}}
-		if c.Bool("hs.unsorted") {
+		if c.Bool(l+".unsorted") {
 			g.Caps[0], g.Caps[4] = g.Caps[4], g.Caps[0]
 			g.Caps[1], g.Caps[2] = g.Caps[2], g.Caps[1]
 		}
 		payload, expect = mustEnc(g), "accept"
 	case "oversized-name":
-		g.Name = strings.Repeat("x", 2049+c.Int("hs.over", 0, 3000))
+		g.Name = strings.Repeat("x", 2049+c.Int(l+".over", 0, 3000))
 		payload, expect = mustEnc(g), "reject"
 	case "oversized-1MiB":
 		g.Name = strings.Repeat("y", 1<<20)
 		payload, expect = mustEnc(g), "reject"
 	case "wrong-id":
 		g.ID = idOf(cc.newKey())
-		if c.Bool("hs.residentID") {
+		if c.Bool(l+".residentID") {
 			g.ID = cc.env.res[0].id
 		}
 		payload, expect = mustEnc(g), "reject"
@@ -1663,7 +1715,7 @@ func (cc *caseCtx) scProtoHS() {
 		g.ID = discover.NodeID{}
 		payload, expect = mustEnc(g), "reject"
 	case "version":
-		g.Version = []uint64{0, 1, 3, 5, 255, 1 << 32, ^uint64(0)}[c.Pick("hs.version", 7)]
+		g.Version = []uint64{0, 1, 3, 5, 255, 1 << 32, ^uint64(0)}[c.Pick(l+".version", 7)]
 		payload, expect = mustEnc(g), "reject"
 	case "caps-0":
 		g.Caps = nil
@@ -1681,7 +1733,7 @@ func (cc *caseCtx) scProtoHS() {
 		g.Caps = append(g.Caps, p2p.Cap{Name: "eth", Version: protoVersion})
 		payload = mustEnc(g)
 	case "caps-huge-name":
-		n := []int{1000, 1900, 5000}[c.Pick("hs.capName", 3)]
+		n := []int{1000, 1900, 5000}[c.Pick(l+".capName", 3)]
 		g.Caps = append([]p2p.Cap{{Name: strings.Repeat("e", n), Version: 1}}, g.Caps...)
 		payload = mustEnc(g)
 		if len(payload) > 2048 {
@@ -1699,32 +1751,32 @@ func (cc *caseCtx) scProtoHS() {
 	case "second-handshake":
 		expect = "accept"
 	case "non-handshake-first":
-		code = []uint64{2, 3, 4, 15, 16, 17, 24, 25, 255, 1 << 32, ^uint64(0)}[c.Pick("hs.code", 11)]
+		code = []uint64{2, 3, 4, 15, 16, 17, 24, 25, 255, 1 << 32, ^uint64(0)}[c.Pick(l+".code", 11)]
 		expect = "reject"
 	case "disc-valid":
 		code = bDisc
-		r := []uint64{0, 1, 3, 4, 8, 11, 12, 13, 14, 255, 1 << 31, 1 << 63, ^uint64(0)}[c.Pick("hs.reason", 13)]
+		r := []uint64{0, 1, 3, 4, 8, 11, 12, 13, 14, 255, 1 << 31, 1 << 63, ^uint64(0)}[c.Pick(l+".reason", 13)]
 		payload, expect = mustEnc([]uint64{r}), "reject"
 		cc.note("(disconnect reason %d)", r)
 	case "disc-hostile":
 		code = bDisc
 		variants := [][]byte{{}, {0xC0}, {0x83, 'a', 'b', 'c'}, {0xC1, 0xC0}, {0xC2, 0x01, 0x02}, {0xC9, 0x89, 1, 2, 3, 4, 5, 6, 7, 8, 9}, {0xF8}, {0xC1, 0x80},
 			{0x0D}, {0xC1, 0x81, 0x0D}, append([]byte{0xB9, 0x0B, 0xB8}, make([]byte, 3000)...)}
-		v := c.Pick("hs.discPayload", len(variants)+1)
+		v := c.Pick(l+".discPayload", len(variants)+1)
 		if v == len(variants) {
-			payload = c.Bytes("hs.discBytes", 0, 64)
+			payload = c.Bytes(l+".discBytes", 0, 64)
 		} else {
 			payload = variants[v]
 		}
 		expect = "reject"
 	case "garbage-rlp":
-		payload, expect = c.Bytes("hs.bytes", 0, 200), "reject"
+		payload, expect = c.Bytes(l+".bytes", 0, 200), "reject"
 		var probe wProtoHS
 		if rlp.DecodeBytes(payload, &probe) == nil && probe.Version == 4 {
 			expect = "any"
 		}
 	case "truncated-rlp":
-		payload, expect = payload[:c.Int("hs.cut", 0, len(payload)-1)], "reject"
+		payload, expect = payload[:c.Int(l+".cut", 0, len(payload)-1)], "reject"
 	case "extra-field":
 		var raw []rlp.RawValue
 		_ = rlp.DecodeBytes(payload, &raw)
@@ -1734,7 +1786,7 @@ func (cc *caseCtx) scProtoHS() {
 		g.ListenPort = ^uint64(0)
 		payload = mustEnc(g)
 	case "frame-incomplete":
-		size = len(payload) + c.Int("hs.missing", 1, 5000)
+		size = len(payload) + c.Int(l+".missing", 1, 5000)
 		expect = "incomplete"
 	}
 	if size < 0 {
@@ -1774,8 +1826,8 @@ func (cc *caseCtx) scProtoHS() {
 		g2 := cc.goodHS(cl)
 		g2.ID = idOf(cc.newKey())
 		p2 := mustEnc(g2)
-		if c.Bool("hs.secondGarbage") {
-			p2 = c.Bytes("hs.second", 0, 100)
+		if c.Bool(l+".secondGarbage") {
+			p2 = c.Bytes(l+".second", 0, 100)
 		}
 		_ = cl.send(txBytes(0, p2))
 		cc.note("  a second handshake message follows (%s)", clip(p2, 16))
@@ -1797,5 +1849,787 @@ func (cc *caseCtx) scProtoHS() {
 			c.Failf("C15/server/valid-handshake-refused", "after a valid protocol handshake (%s) the status exchange failed: %s\n  %s", kind, why, cc.story())
 		}
 		cc.note("  status exchange at offset 16: %v %s", ok, why)
+	}
+}
+
+// ---- scenario: base-protocol messages after a valid handshake ------------------------------------------------------------------------------
+
+// hostilePeer: a hostile connection that did everything right so far (both handshakes; the status if
+// withStatus). nil: the case must end.
+func (cc *caseCtx) hostilePeer(name string, withStatus bool) *sclient {
+	c := cc.c
+	cl := cc.hostileAfterEnc(name, cc.newKey())
+	if cl == nil {
+		return nil
+	}
+	_ = cl.send(txBytes(0, mustEnc(cc.goodHS(cl))))
+	est, ok := cc.awaitEstablished(cl, name+" to be established", false)
+	if !ok {
+		return nil
+	}
+	if !est {
+		c.Failf("C15/server/valid-handshake-refused", "a valid protocol handshake was refused with %d peers connected (limit %d): %s %v\n  %s", cc.livePeers(cl), srvMaxPeers, discReasonOf(cl.snapshot(0)), cl.readErr(), cc.story())
+	}
+	if withStatus {
+		cc.checkServerHello(cl)
+		td := c.Uint64(name+".td", 0, cc.env.height)
+		_ = cl.send(txBytes(subOff+codeStatus, mustEnc(cc.statusOf(td, cc.env.sh.hashes[cc.env.height]))))
+		switch cc.barrier(cl, "the status of "+name) {
+		case wOK:
+			cl.statusOK = true
+		case wClosed:
+			c.Failf("C15/server/valid-handshake-refused", "a valid status (TD %d) was refused: %s %v", td, discReasonOf(cl.snapshot(0)), cl.readErr())
+		default:
+			cc.inconclusive("status of " + name + " neither accepted nor refused")
+			return nil
+		}
+	}
+	cc.note("%s %x.. is connected (both handshakes valid, status sent: %v)", name, cl.id[:3], withStatus)
+	return cl
+}
+
+func countCode(rx []srvRx, code uint64, from int) int {
+	n := 0
+	for i := from; i < len(rx); i++ {
+		if rx[i].code == code {
+			n++
+		}
+	}
+	return n
+}
+
+// alive: a ping is answered (the read loop of the peer is running).
+func (cc *caseCtx) pingPong(cl *sclient, what string) waitRes {
+	_ = cl.send(txBytes(bPing, []byte{0xC0}))
+	cl.pings++
+	want := cl.pings
+	return cc.wait(cl, "the pongs after "+what, false, func(rx []srvRx, _ int) bool { return countCode(rx, bPong, 0) >= want })
+}
+
+// pongBound: never more pongs than pings.
+func (cc *caseCtx) pongBound(cl *sclient) {
+	if got := countCode(cl.snapshot(0), bPong, 0); got > cl.pings {
+		cc.c.Failf("C15/server/pong-amplified", "%d pongs for %d pings on %s\n  %s", got, cl.pings, cl.name, cc.story())
+	}
+}
+
+func (cc *caseCtx) scBase() {
+	c := cc.c
+	withStatus := c.Bool("base.status")
+	cl := cc.hostilePeer("hostile", withStatus)
+	if cl == nil {
+		return
+	}
+	steps := c.Int("base.steps", 1, 5)
+	for i := 0; i < steps && !cl.gone() && !cc.aborted; i++ {
+		l := fmt.Sprintf("b%d", i)
+		act := c.OneOf(l+".act", "ping-flood", "ping-payload", "pong-unsolicited", "base-unknown", "handshake-again", "disc", "code-beyond", "size-smaller",
+			"size-larger", "huge-header", "oversize-sub")
+		c.Class("base/" + act)
+		c.Checkpoint()
+		switch act {
+		case "ping-flood":
+			n := []int{1, 3, 40, 400, 2500}[c.Pick(l+".n", 5)]
+			cl.wmu.Lock()
+			cl.tap.setHold(true)
+			for j := 0; j < n; j++ {
+				_ = cl.rw.WriteMsg(p2p.Msg{Code: bPing, Size: 1, Payload: bytes.NewReader([]byte{0xC0})})
+			}
+			stream := cl.tap.take()
+			cl.tap.setHold(false)
+			_, _ = cl.fd.Write(stream)
+			cl.wmu.Unlock()
+			cl.pings += n
+			want := cl.pings
+			r := cc.wait(cl, fmt.Sprintf("%d pongs", n), false, func(rx []srvRx, _ int) bool { return countCode(rx, bPong, 0) >= want })
+			got := countCode(cl.snapshot(0), bPong, 0)
+			cc.note("#%d %d pings in one write -> %d pongs for %d pings so far (%v)", i, n, got, cl.pings, r)
+			cc.pongBound(cl)
+			if r == wTimeout {
+				cc.inconclusive(fmt.Sprintf("%d of %d pongs", got, n))
+			}
+			if r == wClosed {
+				c.Failf("C15/server/valid-frame-refused", "the peer was dropped on %d well-formed pings: %s %v\n  %s", n, discReasonOf(cl.snapshot(0)), cl.readErr(), cc.story())
+			}
+		case "ping-payload", "pong-unsolicited", "base-unknown", "handshake-again":
+			code := uint64(bPing)
+			switch act {
+			case "pong-unsolicited":
+				code = bPong
+			case "base-unknown":
+				code = uint64(c.Int(l+".code", 4, 15))
+			case "handshake-again":
+				code = 0
+			}
+			var p []byte
+			switch c.OneOf(l+".payload", "empty", "list", "string", "random", "big", "nested") {
+			case "list":
+				p = []byte{0xC0}
+			case "string":
+				p = []byte{0x83, 1, 2, 3}
+			case "random":
+				p = c.Bytes(l+".p", 1, 64)
+			case "big":
+				p = pseudo(cc.seed, i, []int{2049, 100000, 1 << 20}[c.Pick(l+".big", 3)])
+			case "nested":
+				p = bytes.Repeat([]byte{0xC1}, 2000)
+				p[len(p)-1] = 0xC0
+			}
+			if act == "handshake-again" && c.Bool(l+".validHS") {
+				p = mustEnc(cc.goodHS(cl))
+			}
+			reps := 1 + c.Weighted(l+".reps", 4, 1)*99
+			for j := 0; j < reps; j++ {
+				_ = cl.send(txBytes(code, p))
+				if code == bPing {
+					cl.pings++
+				}
+			}
+			// none of these may cost the peer its connection by the rules of the base protocol; the harness only
+			// observes (and the ping shows that the read loop goes on)
+			r := cc.pingPong(cl, act)
+			cc.note("#%d %d x code %d with %s -> then ping: %v", i, reps, code, clip(p, 12), r)
+			if r == wTimeout {
+				cc.inconclusive("no pong after " + act)
+			}
+			if r == wClosed {
+				c.Class("base-result/dropped-on-" + act)
+			}
+		case "disc":
+			variants := [][]byte{mustEnc([]uint64{0}), mustEnc([]uint64{4}), mustEnc([]uint64{13}), mustEnc([]uint64{1 << 63}), mustEnc([]uint64{^uint64(0)}), {}, {0xC0}, {0x80}, {0x0D},
+				{0x83, 'b', 'y', 'e'}, {0xC1, 0xC0}, {0xC2, 1, 2}, {0xC9, 0x89, 1, 2, 3, 4, 5, 6, 7, 8, 9}, {0xF8}, {0xBF}, pseudo(cc.seed, i, 1<<20)}
+			v := c.Pick(l+".disc", len(variants)+1)
+			var p []byte
+			if v == len(variants) {
+				p = c.Bytes(l+".discBytes", 0, 64)
+			} else {
+				p = variants[v]
+			}
+			_ = cl.send(txBytes(bDisc, p))
+			cc.note("#%d disconnect message with payload %s", i, clip(p, 16))
+			// "the connection will be closed after it": a peer that says it leaves is not kept
+			if !cc.expectClosed(cl, "disc", "a disconnect message") {
+				return
+			}
+		case "code-beyond":
+			code := []uint64{subOff + subLen, subOff + subLen + 1, 31, 32, 127, 128, 255, 256, 1 << 16, 1 << 32, 1<<63 + 16, ^uint64(0)}[c.Pick(l+".code", 12)]
+			p := mustEnc(wGetHashesFrom{1, 1})
+			_ = cl.send(txBytes(code, p))
+			var r waitRes
+			if cl.statusOK {
+				r = cc.barrier(cl, "a message code beyond the protocol's range")
+			} else {
+				r = cc.pingPong(cl, "a message code beyond the protocol's range")
+			}
+			cc.note("#%d code %d (the negotiated protocol ends at %d) -> %v", i, code, subOff+subLen-1, map[waitRes]string{wOK: "peer kept", wClosed: "peer dropped", wTimeout: "?"}[r])
+			if r == wTimeout {
+				cc.inconclusive("no outcome after a code beyond the range")
+			}
+			c.Class(map[waitRes]string{wOK: "base-result/beyond-kept", wClosed: "base-result/beyond-dropped", wTimeout: "base-result/beyond-?"}[r])
+		case "size-smaller":
+			// the header announces fewer bytes than follow: the frame MAC cannot match
+			p := pseudo(cc.seed, i, c.Int(l+".len", 20, 300))
+			claim := c.Int(l+".claim", 0, len(p)-17)
+			_ = cl.send(srvTx{code: bPing, size: uint32(claim), payload: bytes.NewReader(p)})
+			_ = cl.send(txBytes(bPing, []byte{0xC0})) // more bytes, so that whatever the server reads as the frame is complete
+			_ = cl.send(txBytes(bPing, []byte{0xC0}))
+			cc.note("#%d ping whose header announces %d bytes, %d follow", i, claim, len(p))
+			if !cc.expectClosed(cl, "frame", "a frame whose size field lies") {
+				return
+			}
+		case "size-larger":
+			p := pseudo(cc.seed, i, c.Int(l+".len", 0, 100))
+			more := c.Int(l+".more", 1, 3000)
+			_ = cl.send(srvTx{code: bPing, size: uint32(len(p) + more), payload: bytes.NewReader(p)})
+			fill := c.Bool(l + ".fill")
+			if fill {
+				cl.wmu.Lock()
+				_, _ = cl.fd.Write(pseudo(cc.seed, i+100, more+64))
+				cl.wmu.Unlock()
+			}
+			cc.note("#%d ping whose header announces %d bytes, %d follow (then %v filler bytes)", i, len(p)+more, len(p), fill)
+			if fill {
+				if !cc.expectClosed(cl, "frame", "a frame completed with filler bytes") {
+					return
+				}
+			} else {
+				return // the server waits for the rest; the client closes
+			}
+		case "huge-header":
+			sz := uint32(1<<24 - 2 - c.Int(l+".less", 0, 16))
+			_ = cl.send(srvTx{code: uint64(c.Int(l+".code", 0, 24)), size: sz, payload: bytes.NewReader(nil)})
+			cc.note("#%d frame header announcing %d bytes, nothing follows", i, sz)
+			return
+		case "oversize-sub":
+			code := uint64(subOff + c.Int(l+".code", 0, 8))
+			n := uint64(exactCapHashes + 1 + c.Int(l+".extra", 0, 20000))
+			hsr := newHashStream(n, cc.seed, nil)
+			err := cl.send(srvTx{code: code, size: uint32(hsr.total()), payload: hsr})
+			c.Class("oversize-message")
+			var r waitRes
+			if cl.statusOK {
+				r = cc.barrier(cl, "an oversized message")
+			} else {
+				r = cc.wait(cl, "the connection to end after an oversized first message", true, nil)
+			}
+			cc.note("#%d %s with %d bytes (> 10 MiB) [write: %v] -> %v", i, codeName(code-subOff), hsr.total(), err, map[waitRes]string{wOK: "ACCEPTED", wClosed: "peer dropped", wTimeout: "?"}[r])
+			if r == wOK {
+				c.Failf("C15/server/size-cap", "a message of %d bytes (> 10 MiB, code %s) was accepted: the peer is still served\n  %s", hsr.total(), codeName(code-subOff), cc.story())
+			}
+			if r == wTimeout {
+				cc.inconclusive("no outcome after an oversized message")
+			}
+		}
+		cc.checkCaps(cl)
+		cc.pongBound(cl)
+	}
+}
+
+// ---- scenario: frames damaged on the wire after the handshake ----------------------------------------------------------------------------------
+
+func (cc *caseCtx) scFrames() {
+	c := cc.c
+	withStatus := c.Bool("fr.status")
+	cl := cc.hostilePeer("hostile", withStatus)
+	if cl == nil {
+		return
+	}
+	n := c.Int("fr.frames", 2, 6)
+	// n well-formed frames, each answered by exactly one message if it arrives intact
+	cl.wmu.Lock()
+	cl.tap.setHold(true)
+	bounds := []int{0}
+	for i := 0; i < n; i++ {
+		if withStatus && c.Bool(fmt.Sprintf("fr.req%d", i)) {
+			h := c.Uint64(fmt.Sprintf("fr.h%d", i), 1, cc.env.height)
+			p := mustEnc(wGetHashesFrom{h, 1})
+			_ = cl.rw.WriteMsg(p2p.Msg{Code: subOff + codeGetBlockHashesFrom, Size: uint32(len(p)), Payload: bytes.NewReader(p)})
+		} else {
+			p := append([]byte{0xC0}, make([]byte, c.Int(fmt.Sprintf("fr.pad%d", i), 0, 40))...)
+			_ = cl.rw.WriteMsg(p2p.Msg{Code: bPing, Size: uint32(len(p)), Payload: bytes.NewReader(p)})
+		}
+		bounds = append(bounds, cl.tap.held())
+	}
+	valid := cl.tap.take()
+	cl.tap.setHold(false)
+	stream := append([]byte{}, valid...)
+	kind := []string{"none", "bitflip", "multi-flip", "truncate", "swap-frames", "drop-frame", "dup-frame", "insert-bytes", "replace-bytes"}[c.Weighted("fr.corruption", 1, 6, 2, 3, 3, 2, 2, 2, 2)]
+	descr := kind
+	frames := make([][]byte, n)
+	for x := 0; x < n; x++ {
+		frames[x] = valid[bounds[x]:bounds[x+1]]
+	}
+	join := func(order []int) []byte {
+		var out []byte
+		for _, x := range order {
+			out = append(out, frames[x]...)
+		}
+		return out
+	}
+	switch kind {
+	case "bitflip":
+		p, bit := c.Int("fr.pos", 0, len(stream)-1), c.Int("fr.bit", 0, 7)
+		stream[p] ^= 1 << uint(bit)
+		descr = fmt.Sprintf("bit %d of byte %d flipped", bit, p)
+	case "multi-flip":
+		k := c.Int("fr.flips", 2, 4)
+		for i := 0; i < k; i++ {
+			stream[c.Int(fmt.Sprintf("fr.pos%d", i), 0, len(stream)-1)] ^= byte(1 + c.Int(fmt.Sprintf("fr.x%d", i), 0, 254))
+		}
+		descr = fmt.Sprintf("%d bytes changed", k)
+	case "truncate":
+		p := c.Int("fr.cut", 0, len(stream)-1)
+		stream = stream[:p]
+		descr = fmt.Sprintf("cut at %d of %d", p, len(valid))
+	case "swap-frames":
+		i, j := c.Int("fr.i", 0, n-1), c.Int("fr.j", 0, n-1)
+		var order []int
+		for x := 0; x < n; x++ {
+			order = append(order, x)
+		}
+		order[i], order[j] = order[j], order[i]
+		stream = join(order)
+		descr = fmt.Sprintf("frames %d and %d swapped", i, j)
+	case "drop-frame":
+		i := c.Int("fr.i", 0, n-1)
+		var order []int
+		for x := 0; x < n; x++ {
+			if x != i {
+				order = append(order, x)
+			}
+		}
+		stream = join(order)
+		descr = fmt.Sprintf("frame %d dropped", i)
+	case "dup-frame":
+		i := c.Int("fr.i", 0, n-1)
+		var order []int
+		for x := 0; x < n; x++ {
+			order = append(order, x)
+			if x == i {
+				order = append(order, x)
+			}
+		}
+		stream = join(order)
+		descr = fmt.Sprintf("frame %d sent twice", i)
+	case "insert-bytes":
+		p := c.Int("fr.pos", 0, len(stream))
+		ins := c.Bytes("fr.ins", 1, 40)
+		stream = append(append(append([]byte{}, valid[:p]...), ins...), valid[p:]...)
+		descr = fmt.Sprintf("%d bytes inserted at %d", len(ins), p)
+	case "replace-bytes":
+		p := c.Int("fr.pos", 0, len(stream)-1)
+		rep := c.Bytes("fr.rep", 1, 40)
+		for i, b := range rep {
+			if p+i < len(stream) {
+				stream[p+i] = b
+			}
+		}
+		descr = fmt.Sprintf("%d bytes overwritten at %d", len(rep), p)
+	}
+	// where the stream really starts to differ
+	lcp := 0
+	for lcp < len(stream) && lcp < len(valid) && stream[lcp] == valid[lcp] {
+		lcp++
+	}
+	intact := n // frames that arrive undamaged before the first difference
+	damaged := true
+	switch {
+	case lcp == len(stream) && lcp == len(valid):
+		damaged, kind = false, "none"
+	default:
+		for intact = 0; intact < n && bounds[intact+1] <= lcp; intact++ {
+		}
+	}
+	proper := lcp == len(stream) // a proper prefix of the valid stream: the server just waits for more
+	filler := false
+	if damaged && proper && c.Bool("fr.filler") {
+		filler = true
+		stream = append(stream, pseudo(cc.seed, 99, 400)...)
+	}
+	c.Class("frames/" + kind)
+	from := cl.rxLen()
+	c.Checkpoint()
+	_, werr := cl.fd.Write(stream)
+	cl.wmu.Unlock()
+	cc.note("%d well-formed frames (%d bytes), on the wire: %s; first differing byte %d => %d frames intact; filler=%v [write: %v]", n, len(valid), descr, lcp, intact, filler, werr)
+	answers := func(rx []srvRx) int {
+		return countCode(rx, bPong, from) + countCode(rx, subOff+codeBlockHashes, from)
+	}
+	if !damaged {
+		r := cc.wait(cl, "the answers to intact frames", false, func(rx []srvRx, _ int) bool { return answers(rx) >= n })
+		if r == wClosed {
+			c.Failf("C15/server/valid-frame-refused", "the peer was dropped on %d well-formed frames: %s %v\n  %s", n, discReasonOf(cl.snapshot(0)), cl.readErr(), cc.story())
+		}
+		if r == wTimeout {
+			cc.inconclusive("intact frames not answered")
+		}
+		return
+	}
+	if !proper || filler {
+		if !cc.expectClosed(cl, "frame", "damaged frames ("+descr+")") {
+			return
+		}
+	} else {
+		// the server waits for the rest of a frame: what it could answer, it has answered once a later
+		// message of an honest connection was served (no order between connections: only an upper bound)
+		cc.pause()
+	}
+	if got := answers(cl.snapshot(0)); got > intact {
+		c.Failf("C15/server/corrupt-frame-accepted", "%d answers received, only %d frames arrived intact (%s)\n  %s", got, intact, descr, cc.story())
+	}
+}
+
+// pause lets the server do what it can do without proving anything: one honest round trip.
+func (cc *caseCtx) pause() {
+	r := cc.env.res[0]
+	if r != nil && !r.gone() {
+		from := r.rxLen()
+		_ = r.send(txBytes(bPing, []byte{0xC0}))
+		cc.wait(r, "a resident's pong", false, hasCode(bPong, from))
+	}
+}
+
+// ---- scenario: the sub-protocol over the real connection --------------------------------------------------------------------------------------------
+
+func (cc *caseCtx) genSession() *session {
+	sh := cc.env.sh
+	s := &session{c: cc.c, sh: sh, validSet: map[uint64]bool{}, poolOK: map[types.Hash]bool{}, goodBlk: map[types.Hash]bool{}, t0: time.Now()}
+	s.onA, s.node, s.k, s.k0, s.tip, s.policy = true, sh.a, sh.height, sh.height, sh.height, "silent"
+	s.seed = cc.seed
+	s.heightOf = map[types.Hash]uint64{}
+	for h := uint64(1); h <= s.tip; h++ {
+		s.heightOf[sh.hashes[h]] = h
+	}
+	s.chainID, s.genesis = cc.env.chainID, cc.env.genesis
+	return s
+}
+
+func (cc *caseCtx) scSubproto() {
+	c := cc.c
+	cl := cc.hostilePeer("hostile", false)
+	if cl == nil {
+		return
+	}
+	cc.checkServerHello(cl)
+	s := cc.genSession()
+	hs := c.OneOf("sp.status", "valid", "valid", "valid", "valid", "valid", "wrong-network", "wrong-genesis", "wrong-version", "not-status", "garbage",
+		"oversize", "truncated", "none", "twice")
+	c.Class("status-" + hs)
+	st := cc.statusOf(c.Uint64("sp.td", 0, cc.env.height), cc.env.sh.hashes[cc.env.height])
+	code := uint64(codeStatus)
+	payload := mustEnc(st)
+	var stream io.Reader
+	size := -1
+	wantOK := false
+	switch hs {
+	case "valid", "twice":
+		wantOK = true
+	case "wrong-network":
+		st.NetworkId++
+		payload = mustEnc(st)
+	case "wrong-genesis":
+		st.GenesisBlock = unknownHash(cc.seed, 1)
+		payload = mustEnc(st)
+	case "wrong-version":
+		st.ProtocolVersion = uint32(c.Int("sp.version", 0, 100))
+		payload = mustEnc(st)
+		wantOK = st.ProtocolVersion == protoVersion
+	case "not-status":
+		code = uint64(c.Int("sp.code", 1, 8))
+	case "garbage":
+		payload = c.Bytes("sp.bytes", 0, 48)
+	case "oversize":
+		hsr := newHashStream(uint64(exactCapHashes+1+c.Int("sp.extra", 0, 1000)), cc.seed, nil)
+		stream, size = hsr, int(hsr.total())
+	case "truncated":
+		payload = payload[:c.Int("sp.cut", 0, len(payload)-1)]
+	case "none":
+	}
+	var r waitRes
+	if hs == "none" {
+		cc.note("hostile sends no status and starts with requests")
+		r = cc.barrier(cl, "no status at all")
+	} else {
+		if size < 0 {
+			size = len(payload)
+		}
+		if stream == nil {
+			stream = bytes.NewReader(payload)
+		}
+		c.Checkpoint()
+		_ = cl.send(srvTx{code: subOff + code, size: uint32(size), payload: stream})
+		r = cc.barrier(cl, "the status ("+hs+")")
+		cc.note("hostile status %s (code %d, %d bytes %s) -> %v", hs, code, size, clip(payload, 12), map[waitRes]string{wOK: "accepted", wClosed: "peer dropped", wTimeout: "?"}[r])
+	}
+	switch {
+	case r == wTimeout:
+		cc.inconclusive("status neither accepted nor refused")
+		return
+	case r == wOK && !wantOK:
+		c.Failf("C15/server/status-accepted/"+hs, "the node serves a peer whose status was %s (code %d, %s)\n  %s", hs, code, clip(payload, 48), cc.story())
+	case r == wClosed && wantOK:
+		c.Failf("C15/server/valid-handshake-refused", "a valid status was refused: %s %v\n  %s", discReasonOf(cl.snapshot(0)), cl.readErr(), cc.story())
+	}
+	if r != wOK {
+		return
+	}
+	cl.statusOK = true
+	if hs == "twice" {
+		_ = cl.send(txBytes(subOff+codeStatus, payload))
+		r2 := cc.barrier(cl, "a second status")
+		cc.note("a second status -> %v", r2)
+		if r2 == wTimeout {
+			cc.inconclusive("second status: no outcome")
+		}
+		if r2 != wOK {
+			return
+		}
+	}
+	nmsg := c.Int("sp.messages", 1, 8)
+	reached := 0
+	for i := 0; i < nmsg && !cl.gone() && !cc.aborted; i++ {
+		m := s.genMessage(fmt.Sprintf("m%d", i))
+		var rd io.Reader = m.stream
+		if rd == nil {
+			rd = bytes.NewReader(m.payload)
+		}
+		if m.size > 1<<24-4 {
+			c.Class("subproto/not-expressible-in-a-frame")
+			cc.note("#%d %s: does not fit the 24-bit frame size, not sent", i, m.descr)
+			continue
+		}
+		incomplete := m.stream == nil && int(m.size) > len(m.payload)
+		c.Checkpoint()
+		cr := &countReader{r: rd}
+		err := cl.send(srvTx{code: subOff + m.code, size: m.size, payload: cr})
+		if incomplete {
+			// the frame announces more than was written: the server waits for the rest
+			c.Class("subproto/frame-incomplete")
+			cc.note("#%d %s: frame left incomplete", i, m.descr)
+			return
+		}
+		r := cc.barrier(cl, m.descr)
+		cc.note("#%d %s [write: %v] -> %v", i, m.descr, err, map[waitRes]string{wOK: "handled", wClosed: "peer dropped", wTimeout: "?"}[r])
+		c.Class("subproto-outcome/" + map[waitRes]string{wOK: "handled", wClosed: "peer-dropped", wTimeout: "no-progress"}[r])
+		if m.reaches {
+			reached++
+			c.NonTrivialItem(fmt.Sprintf("server/%s/%s", codeName(m.code), m.shape))
+		}
+		if r == wTimeout {
+			cc.inconclusive("no outcome after " + m.descr)
+			return
+		}
+		cc.checkCaps(cl)
+		if m.over || m.size > maxMsgSize {
+			c.Class("oversize-message")
+			if r == wOK {
+				c.Failf("C15/server/size-cap", "a message announcing %d bytes (> 10 MiB) was accepted: %s\n  %s", m.size, m.descr, cc.story())
+			}
+		}
+	}
+	c.R.Count("srv_messages_reaching_lookup", reached)
+}
+
+// ---- scenario: requests arriving while the handler is busy ---------------------------------------------------------------------------------------------
+
+func (cc *caseCtx) scBusy() {
+	c := cc.c
+	cl := cc.hostilePeer("hostile", true)
+	if cl == nil {
+		return
+	}
+	n := c.Int("busy.n", 5, 40)
+	var known []types.Hash
+	for h := uint64(1); h <= 200; h++ {
+		known = append(known, cc.env.sh.hashes[h])
+	}
+	from := cl.rxLen()
+	reqs, pings := 0, 0
+	c.Checkpoint()
+	cl.wmu.Lock()
+	cl.tap.setHold(true)
+	for i := 0; i < n; i++ {
+		switch c.Weighted(fmt.Sprintf("busy.k%d", i), 3, 3, 2, 1) {
+		case 0:
+			p := encHashes(known[:c.Int(fmt.Sprintf("busy.h%d", i), 1, 200)])
+			_ = cl.rw.WriteMsg(p2p.Msg{Code: subOff + codeGetBlocks, Size: uint32(len(p)), Payload: bytes.NewReader(p)})
+			reqs++
+		case 1:
+			p := mustEnc(wGetHashesFrom{c.Uint64(fmt.Sprintf("busy.f%d", i), 0, cc.env.height+5), amounts[c.Pick(fmt.Sprintf("busy.a%d", i), len(amounts))]})
+			_ = cl.rw.WriteMsg(p2p.Msg{Code: subOff + codeGetBlockHashesFrom, Size: uint32(len(p)), Payload: bytes.NewReader(p)})
+			reqs++
+		case 2:
+			_ = cl.rw.WriteMsg(p2p.Msg{Code: bPing, Size: 1, Payload: bytes.NewReader([]byte{0xC0})})
+			pings++
+		default:
+			p := mustEnc(wGetHashes{cc.env.sh.hashes[c.Uint64(fmt.Sprintf("busy.g%d", i), 1, cc.env.height)], amounts[c.Pick(fmt.Sprintf("busy.b%d", i), len(amounts))]})
+			_ = cl.rw.WriteMsg(p2p.Msg{Code: subOff + codeGetBlockHashes, Size: uint32(len(p)), Payload: bytes.NewReader(p)})
+			reqs++
+		}
+	}
+	stream := cl.tap.take()
+	cl.tap.setHold(false)
+	_, _ = cl.fd.Write(stream)
+	cl.wmu.Unlock()
+	r := cc.barrier(cl, fmt.Sprintf("a burst of %d requests and %d pings in one write", reqs, pings))
+	rx := cl.snapshot(0)
+	replies := countCode(rx, subOff+codeBlockHashes, from) + countCode(rx, subOff+codeBlocks, from)
+	cc.note("burst of %d requests + %d pings (%d bytes, one write) -> %v; %d replies, %d pongs", reqs, pings, len(stream), r, replies, countCode(rx, bPong, from))
+	switch r {
+	case wTimeout:
+		cc.inconclusive("burst not worked off")
+		return
+	case wClosed:
+		c.Failf("C15/server/valid-frame-refused", "the peer was dropped during a burst of well-formed requests: %s %v\n  %s", discReasonOf(rx), cl.readErr(), cc.story())
+	}
+	if replies != reqs+2 {
+		c.Failf("C15/server/burst-replies", "%d replies to %d requests (+2 of the barrier)\n  %s", replies, reqs, cc.story())
+	}
+	if r := cc.wait(cl, "the pongs of the burst", false, func(rx []srvRx, _ int) bool { return countCode(rx, bPong, from) >= pings }); r == wTimeout {
+		cc.inconclusive("pongs of the burst missing")
+		return
+	}
+	if got := countCode(cl.snapshot(0), bPong, from); got > pings {
+		c.Failf("C15/server/pong-amplified", "%d pongs for %d pings", got, pings)
+	}
+	cc.checkCaps(cl)
+}
+
+// ---- scenario: more connections than MaxPeers ----------------------------------------------------------------------------------------------------------------
+
+func (cc *caseCtx) scLimits() {
+	c := cc.c
+	free := srvMaxPeers - cc.residentsAlive()
+	n := free + c.Int("lim.extra", 1, 3)
+	withStatus := c.Bool("lim.status")
+	est := 0
+	for i := 0; i < n && !cc.aborted; i++ {
+		cl := cc.hostileAfterEnc(fmt.Sprintf("hostile-%d", i), cc.newKey())
+		if cl == nil {
+			return
+		}
+		_ = cl.send(txBytes(0, mustEnc(cc.goodHS(cl))))
+		ok, fine := cc.awaitEstablished(cl, fmt.Sprintf("connection %d of %d", i+1, n), false)
+		if !fine {
+			return
+		}
+		cc.note("connection %d: established=%v (%s)", i+1, ok, discReasonOf(cl.snapshot(0)))
+		if ok {
+			est++
+			if withStatus {
+				_ = cl.send(txBytes(subOff+codeStatus, mustEnc(cc.statusOf(0, cc.env.genesis))))
+			}
+		}
+		if est > free {
+			c.Failf("C15/server/max-peers", "%d connections beyond the %d residents are run as peers, MaxPeers is %d\n  %s", est, cc.residentsAlive(), srvMaxPeers, cc.story())
+		}
+		if !ok && est < free {
+			c.Failf("C15/server/valid-handshake-refused", "connection %d was refused (%s) although only %d of %d peer slots are taken\n  %s", i+1, discReasonOf(cl.snapshot(0)), cc.livePeers(nil), srvMaxPeers, cc.story())
+		}
+		if pc := cc.env.srv.PeerCount(); pc > srvMaxPeers {
+			c.Failf("C15/server/max-peers", "PeerCount() = %d, MaxPeers is %d", pc, srvMaxPeers)
+		}
+	}
+	c.Class(fmt.Sprintf("limits/established-%d-of-%d", est, n))
+}
+
+// ---- scenario: one node ID, two connections ----------------------------------------------------------------------------------------------------------------------
+
+func (cc *caseCtx) scDupID() {
+	c := cc.c
+	kind := c.OneOf("dup.kind", "resident-id", "own-id-sequential", "own-id-concurrent", "server-id")
+	c.Class("dup-id/" + kind)
+	second := func(name string, key *ecdsa.PrivateKey) (*sclient, bool) {
+		cl := cc.dial(name, key)
+		if cl == nil {
+			return nil, false
+		}
+		c.Checkpoint()
+		if err := cc.encHandshake(cl); err != nil {
+			cc.note("%s: encryption handshake: %v", name, err)
+			cl.close(false)
+			return cl, false
+		}
+		cc.passed = true
+		cl.startReader()
+		_ = cl.send(txBytes(0, mustEnc(cc.goodHS(cl))))
+		est, ok := cc.awaitEstablished(cl, name, true)
+		if !ok {
+			return nil, false
+		}
+		cc.note("%s with id %x..: established=%v (%s)", name, cl.id[:3], est, discReasonOf(cl.snapshot(0)))
+		return cl, est
+	}
+	switch kind {
+	case "resident-id":
+		r := cc.env.res[c.Pick("dup.which", len(cc.env.res))]
+		cl, est := second("impostor", r.key)
+		if cl == nil {
+			return
+		}
+		if est {
+			c.Failf("C15/server/duplicate-id-accepted", "a second connection with the node ID of connected peer %s is run as a peer\n  %s", r.name, cc.story())
+		}
+	case "server-id":
+		cl, est := second("mirror", cc.env.key)
+		if cl == nil {
+			return
+		}
+		if est {
+			c.Failf("C15/server/self-id-accepted", "a connection presenting the server's own node ID is run as a peer\n  %s", cc.story())
+		}
+	case "own-id-sequential":
+		first := cc.hostilePeer("hostile", c.Bool("dup.status"))
+		if first == nil {
+			return
+		}
+		cl, est := second("twin", first.key)
+		if cl == nil {
+			return
+		}
+		if est {
+			c.Failf("C15/server/duplicate-id-accepted", "two connections with the same node ID are run as peers\n  %s", cc.story())
+		}
+		if first.statusOK {
+			if r := cc.barrier(first, "its twin was refused"); r != wOK {
+				if r == wTimeout {
+					cc.inconclusive("first connection not served after twin")
+					return
+				}
+				c.Failf("C15/server/first-of-twins-dropped", "the first connection was dropped when a second one presented its ID: %s %v\n  %s", discReasonOf(first.snapshot(0)), first.readErr(), cc.story())
+			}
+		}
+	case "own-id-concurrent":
+		key := cc.newKey()
+		var cls []*sclient
+		for i := 0; i < 2+c.Int("dup.more", 0, 1); i++ {
+			cl := cc.dial(fmt.Sprintf("twin-%d", i), key)
+			if cl == nil {
+				return
+			}
+			if err := cc.encHandshake(cl); err != nil {
+				c.Failf("C15/server/valid-handshake-refused", "a valid auth message was refused: %v", err)
+			}
+			cl.startReader()
+			cls = append(cls, cl)
+		}
+		cc.passed = true
+		c.Checkpoint()
+		for _, cl := range cls { // all are past the first check before any becomes a peer
+			_ = cl.send(txBytes(0, mustEnc(cc.goodHS(cl))))
+		}
+		est := 0
+		for _, cl := range cls {
+			ok, fine := cc.awaitEstablished(cl, cl.name, false)
+			if !fine {
+				return
+			}
+			if ok {
+				est++
+			}
+		}
+		cc.note("%d connections with one node ID complete their handshakes at the same time: %d established", len(cls), est)
+		if est > 1 {
+			c.Failf("C15/server/duplicate-id-accepted", "%d concurrent connections with the same node ID are run as peers\n  %s", est, cc.story())
+		}
+		if est == 0 {
+			c.Failf("C15/server/valid-handshake-refused", "none of %d concurrent connections with one node ID was accepted\n  %s", len(cls), cc.story())
+		}
+	}
+}
+
+// ---- scenario: connections left idle in the handshake phase --------------------------------------------------------------------------------------------------------------
+
+func (cc *caseCtx) scHalfOpen() {
+	c := cc.c
+	kind := c.OneOf("ho.kind", "few-idle", "few-partial-auth", "few-after-enc", "flood-idle")
+	c.Class("half-open/" + kind)
+	n := c.Int("ho.n", 1, srvPending-2)
+	if kind == "flood-idle" {
+		n = srvPending + c.Int("ho.more", 1, 20)
+	}
+	for i := 0; i < n; i++ {
+		cl := cc.dial(fmt.Sprintf("idle-%d", i), cc.newKey())
+		if cl == nil {
+			return
+		}
+		switch kind {
+		case "few-partial-auth":
+			_, _ = cl.fd.Write(makeAuth(cl.key, cc.env.id)[:c.Int(fmt.Sprintf("ho.cut%d", i), 1, hsEncAuthLen-1)])
+		case "few-after-enc":
+			if err := cc.encHandshake(cl); err != nil {
+				c.Failf("C15/server/valid-handshake-refused", "a valid auth message was refused: %v", err)
+			}
+			cc.passed = true
+		}
+	}
+	cc.note("%d connections opened and left idle (%s); the server has %d handshake slots", n, kind, srvPending)
+	if kind == "flood-idle" {
+		// every slot is taken (the documented limit): nothing is asserted until they are gone
+		for _, cl := range cc.conns {
+			cl.close(c.Bool("ho.rst"))
+		}
+		cc.conns = nil
+		return
 	}
 }
